@@ -545,6 +545,11 @@ class VolumeMesh(Mesh):
                     boundary.faces.append((bA,bB,bC))
                 else:
                     boundary.faces.append((bA,bC,bB))
+            if not config.complete_edges_from_faces:
+                # no edge would be generated from the faces: the border edges of the volume are given explicitly
+                for e in self.complete_mesh.boundary_edges:
+                    u,v = self.complete_mesh.edges[e]
+                    boundary.edges.append(keyify(self.m2b_vertex[u], self.m2b_vertex[v]))
             return SurfaceMesh(boundary)
         
         ##### Vertex to elements #####
